@@ -4,8 +4,8 @@
    planners byte for byte on every run).   SQL semantics for window_semantic: model/SqlEval.v (C07, trusted). *)
 From Coq Require Import List ZArith NArith QArith String Ascii Bool.
 From Qryn Require Import lib.Strs lib.CivilDate model.Sql model.SqlRender model.SqlEval model.Logql model.LogqlPlan model.Scans
-  model.ScanCases model.ScansTq proofs.ScansProofs proofs.ScansPlanProofs proofs.ScansSemProofs proofs.ScansTqProofs proofs.ScansPromProofs proofs.ScansLabelProofs.
-From Qryn Require Import model.PromSel model.ScansPlanners.
+  model.ScanCases model.ScansTq proofs.ScansProofs proofs.ScansPlanProofs proofs.ScansSemProofs proofs.ScansTqProofs proofs.ScansPromProofs proofs.ScansLabelProofs proofs.ScansProfProofs.
+From Qryn Require Import model.PromSel model.ProfSel model.ScansPlanners.
 From Qryn Require model.TqSql model.Traceql model.TraceqlPlan.
 Import ListNotations.
 Open Scope Z_scope.
@@ -153,6 +153,13 @@ Theorem series_every_scan_bounded : forall info c sels q,
 Proof. exact series_scans_bounded. Qed.
 Print Assumptions series_every_scan_bounded.
 
+(* label names (QueryLabelsService.Labels, /loki/api/v1/labels and /api/v1/labels): start / end in milliseconds *)
+Theorem label_names_every_scan_bounded : forall info table ty start_ms end_ms,
+  info table = index_typed -> ty <> 0 -> 0 <= start_ms -> 0 <= end_ms ->
+  Forall (scan_bounded info (labels_win ty start_ms end_ms)) (scans (labels_query table ty start_ms end_ms)).
+Proof. exact labels_query_scans_bounded. Qed.
+Print Assumptions label_names_every_scan_bounded.
+
 (* ---- Prometheus Select (model/PromSel.v, C17; tied byte for byte to reader/promql/transpiler and
    CLokiQuerier.transpileLabelMatchers) ------------------------------------------------------------------------
    For EVERY hint record, matcher list, regex oracle, table layout and database name: every base-table read of the
@@ -200,6 +207,16 @@ Theorem prom_labels_fetch_bounded_refuted : forall cluster fps from_ms to_ms,
   ~ Forall (scan_bounded table_info (fetch_win from_ms to_ms)) (scans (labels_fetch cluster fps from_ms to_ms)).
 Proof. exact labels_fetch_untyped. Qed.
 Print Assumptions prom_labels_fetch_bounded_refuted.
+
+(* ---- Pyroscope stream selector (model/ProfSel.v, C17: StreamSelectorPlanner, the fingerprint selection every
+   Pyroscope label / series / merge / render request starts from): for every selector list and window, the read of
+   profiles_series_gin has date >= FormatFromDate(From) and date <= day(To).  (The planners around it - label names
+   and values, select series, merge - are judged per recorded statement.) *)
+Theorem prof_selector_every_scan_bounded : forall info gin from_ns to_ns sels,
+  info gin = idx_untyped ->
+  Forall (scan_bounded info (prof_win from_ns to_ns)) (scans (prof_selector gin from_ns to_ns sels)).
+Proof. exact prof_selector_scans_bounded. Qed.
+Print Assumptions prof_selector_every_scan_bounded.
 
 (* ---- TraceQL planners (model/TraceqlPlan.v, C11; tied byte for byte to clickhouse_transpiler) ----------------
    tq_scans enumerates the base-table reads of a TqSql tree (model/ScansTq.v).  For EVERY script, mode (search /
@@ -275,5 +292,11 @@ Example label_guards_met :
   (match multi_stream_select cluster_ctx [[m_ab]; [m_ab]] with
    | Some q => Nat.leb 3 (List.length (scans (series_planner cluster_ctx q))) && Nat.leb 3 (List.length (scans (values_planner std_ctx "job"%string (Some q))))
    | None => false end = true)
-  /\ List.length (scans (values_planner std_ctx "job"%string None)) = 1%nat.
+  /\ List.length (scans (values_planner std_ctx "job"%string None)) = 1%nat
+  /\ List.length (scans (labels_query "time_series_gin_dist"%string 2 1704888000123 1704891600456)) = 1%nat.
 Proof. exact label_examples. Qed.
+Example prof_guard_met :
+  table_info "profiles_series_gin" = idx_untyped /\
+  List.length (scans (prof_selector "profiles_series_gin" 1704888000000000000 1704891600000000000
+     [{| sl_name := "service_name"; sl_op := MEq; sl_val := "svc" |}; {| sl_name := "a"; sl_op := MRe; sl_val := "b.*" |}])) = 1%nat.
+Proof. exact prof_example. Qed.
